@@ -1,8 +1,8 @@
 (* Tie T1 for the frame-level operations of qframe.go (properties C08, C10, C06, C01) — not one of the 19 properties,
    compiled with them.  Gen/GenQFrameOps.v is produced by tools/qf2coq/qframeops.go from the Go text of qframe.go
    (QFrame.withErr, withIndex, Contains, Len, ColumnNames, checkColumns, Select, Drop, Slice, setColumn, Copy,
-   constCount, createColumn, New, apply0, apply1, apply2, Apply, WithRowNums, FilteredApply; the structs namedColumn,
-   QFrame, Instruction, Const*, newqf.Config) and of internal/strings/set.go (NewStringSet, Contains), statement by
+   constCount, createColumn, New, apply0, apply1, apply2, Apply, WithRowNums, FilteredApply, Sort, Equals, Eval,
+   ColumnTypes, ColumnTypeMap; the structs namedColumn, QFrame, Instruction, Order, Const*, newqf.Config, eval.Config) and of internal/strings/set.go (NewStringSet, Contains), statement by
    statement.  Every theorem below says: the definition generated from the Go source computes the hand-written
    model function of Model/Frame.v / Model/Ops.v that the proofs of the properties and the frameops engine use —
    for all inputs.  An edit of one of these Go functions changes the generated text at the next run and the
@@ -25,7 +25,8 @@
    propagate, checkname_error, unknownCol are arbitrary functions); the model only keeps whether Err is set. *)
 From Coq Require Import Permutation.
 From QF Require Import Base.Prelude Gen.GenQFrameOps.
-From QF Require Import Model.Frame Model.Filter Model.Ops Proofs.GenQFrameOpsProofs.
+From QF Require Import Model.Frame Model.Filter Model.Ops Model.Sort Model.SortFrame Model.Eval Proofs.GenQFrameOpsProofs.
+From QF Require Proofs.SortFrameProofs Proofs.GenExprTreeProofs.
 Local Open Scope N_scope.
 
 (* ------------------------------------------------------------------ the representation relation *)
@@ -400,3 +401,170 @@ Example T1_qframe_WithRowNums_example :
   = with_row_nums ex_f [110]
   /\ match with_row_nums ex_f [110] with Ok f' => lookup_col f' [110] = Some (ICol [1; 0; 0]%Z) | _ => False end.
 Proof. vm_compute. split; reflexivity. Qed.
+
+(* ------------------------------------------------------------------ Sort *)
+
+(* The abstraction boundary of Sort: Column.Comparable (cmpf; a Comparable is the pair of the column and its Compare on
+   two row ids) and the sorter qfsort.New(ix, columns).Sort() (srt: internal/sort, translated in Gen/GenSorter.v).
+   [comparable_ok cmpf]: for equalNull = false — the literal Sort passes — cmpf answers the model's col_comparable.
+   Translated: the sticky Err, the empty order list, the by-name lookup of every order column with the unknown-column
+   error, Comparable(o.Reverse, false, o.NullLast), the copy of the index, the sorter, withIndex.
+   Premise on srt: on this frame it answers what the model's sorter answers behind the model's range check
+   [rows_in_range] (made once before sorting: an over-approximation on frames that are not well formed). *)
+Theorem T1_qframe_Sort (E : Type) (col_nil : coldata) (new_error : bytes -> bytes -> E) (unknownCol : bytes -> bytes)
+  (cmpf : coldata -> bool -> bool -> bool -> outcome (coldata * (nat -> nat -> cmpres)))
+  (srt : list nat -> list (coldata * (nat -> nat -> cmpres)) -> outcome (list nat))
+  (q : gq_QFrame nat E coldata) (f : frame) (orders : list order) :
+  comparable_ok cmpf -> rep q f ->
+  (forall cs, comparables f orders = Some cs ->
+     srt (ix f) cs = if rows_in_range (ix f) (map fst cs) then sort_ids (less_keys (map snd cs)) (ix f) else Panic) ->
+  match sort_frame f orders with
+  | Ok f' => exists q', gq_QFrame_Sort col_nil new_error unknownCol cmpf srt q (map gorder_of orders) = Ok q' /\ rep q' f'
+  | Fail => gq_QFrame_Sort col_nil new_error unknownCol cmpf srt q (map gorder_of orders) = Fail
+  | Panic => gq_QFrame_Sort col_nil new_error unknownCol cmpf srt q (map gorder_of orders) = Panic
+  end.
+Proof. exact (fun Hc => gq_Sort_sim col_nil new_error unknownCol cmpf srt Hc q f orders). Qed.
+Print Assumptions T1_qframe_Sort.
+
+(* with the TRANSLATED sorter (m_sorter fuel = gs_Sort over less_keys of the Compare functions, T1_sorter_Sort) the
+   premise is the range check alone; fuel: length of the index + 6 *)
+Theorem T1_qframe_Sort_translated (E : Type) (col_nil : coldata) (new_error : bytes -> bytes -> E) (unknownCol : bytes -> bytes)
+  (fuel : nat) (q : gq_QFrame nat E coldata) (f : frame) (orders : list order) :
+  rep q f -> (length (ix f) + 6 <= fuel)%nat -> (Z.of_nat (length (ix f)) < 9223372036854775808)%Z ->
+  (forall cs, comparables f orders = Some cs -> rows_in_range (ix f) (map fst cs) = true) ->
+  match sort_frame f orders with
+  | Ok f' => exists q', m_Sort col_nil new_error unknownCol fuel q (map gorder_of orders) = Ok q' /\ rep q' f'
+  | Fail => m_Sort col_nil new_error unknownCol fuel q (map gorder_of orders) = Fail
+  | Panic => m_Sort col_nil new_error unknownCol fuel q (map gorder_of orders) = Panic
+  end.
+Proof. exact (gq_Sort_translated col_nil new_error unknownCol fuel q f orders). Qed.
+Print Assumptions T1_qframe_Sort_translated.
+
+(* C03_frame_sort (Properties/C03.v) restated on the translated Sort + translated sorter: on a well-formed frame with
+   known order columns the Go text answers a frame g — columns untouched, index a permutation, rows whole, no row
+   followed by a smaller one *)
+Theorem T1_qframe_Sort_C03 (E : Type) (col_nil : coldata) (new_error : bytes -> bytes -> E) (unknownCol : bytes -> bytes)
+  (fuel : nat) (q : gq_QFrame nat E coldata) (f : frame) (orders : list order) :
+  wf_frame f = true -> ferr f = false -> SortFrameProofs.orders_known f orders = true -> rep q f ->
+  (length (ix f) + 6 <= fuel)%nat -> (Z.of_nat (length (ix f)) < 9223372036854775808)%Z ->
+  exists q' g t t',
+    gq_QFrame_Sort col_nil new_error unknownCol m_col_Comparable (m_sorter fuel) q (map gorder_of orders) = Ok q' /\ rep q' g /\
+    cols g = cols f /\ ferr g = false /\ Permutation (ix g) (ix f) /\
+    abs f = Ok t /\ abs g = Ok t' /\ tnames t' = tnames t /\ ttypes t' = ttypes t /\
+    Permutation (trows t') (trows t) /\
+    (forall i a, nth_error (ix g) i = Some a ->
+       exists row, row_at f a = Ok row /\ nth_error (trows t') i = Some row) /\
+    (forall i j a b, (i < j)%nat -> nth_error (ix g) i = Some a -> nth_error (ix g) j = Some b ->
+       SortFrameProofs.row_lt f orders b a = Ok false).
+Proof. exact (gq_Sort_C03 col_nil new_error unknownCol fuel q f orders). Qed.
+Print Assumptions T1_qframe_Sort_C03.
+(* the example frame sorted by "a" (the third column: bools) descending, then "b" with nulls last; an unknown column *)
+Example T1_qframe_Sort_example :
+  let orders := [([97], true, false); ([98], false, true)] in
+  comparable_ok m_col_Comparable
+  /\ wf_frame ex_f = true /\ SortFrameProofs.orders_known ex_f orders = true
+  /\ match m_Sort (ICol []) (fun _ _ => tt) (fun b => b) 20 ex_q (map gorder_of orders) with
+     | Ok q' => Ok (absq q') | Fail => Fail | Panic => Panic end = sort_frame ex_f orders
+  /\ sort_frame ex_f orders = Ok (with_ix ex_f [2; 0]%nat)
+  /\ match m_Sort (ICol []) (fun _ _ => tt) (fun b => b) 20 ex_q (map gorder_of [([122], false, false)]) with
+     | Ok q' => Ok (absq q') | Fail => Fail | Panic => Panic end = Ok (with_err ex_f).
+Proof. cbv zeta. split; [exact m_col_Comparable_ok|]. vm_compute. repeat split; reflexivity. Qed.
+
+(* ------------------------------------------------------------------ Equals *)
+
+(* Equals = Ops.equals (the function C09_equals_iff speaks about): index lengths, column counts, names position by
+   position, Column.Equals over both indexes (ceq = the model's col_equals: the abstraction boundary); the reason
+   text is some string (Sprintf is an arbitrary function of its format) *)
+Theorem T1_qframe_Equals (E : Type) (sprintf : bytes -> bytes) (q q2 : gq_QFrame nat E coldata) (f g : frame) :
+  rep q f -> rep q2 g ->
+  match equals f g with
+  | Ok r => exists reason, m_Equals sprintf q q2 = Ok (r, reason)
+  | Fail => m_Equals sprintf q q2 = Fail
+  | Panic => m_Equals sprintf q q2 = Panic
+  end.
+Proof. exact (gq_Equals_eq sprintf q q2 f g). Qed.
+Print Assumptions T1_qframe_Equals.
+Example T1_qframe_Equals_example :
+  m_Equals (fun b => b) ex_q ex_q = Ok (true, []) /\ equals ex_f ex_f = Ok true
+  /\ (match m_Equals (fun b => b) ex_q (embed tt (with_ix ex_f [2; 1]%nat)) with Ok (r, _) => Some r | _ => None end) = Some false
+  /\ equals ex_f (with_ix ex_f [2; 1]%nat) = Ok false.
+Proof. vm_compute. repeat split; reflexivity. Qed.
+
+(* ------------------------------------------------------------------ Eval *)
+
+(* The abstraction boundary of Eval: eval.NewConfig (ncf: answers the Config whose Ctx is cx) and expr.execute (exec).
+   [execute_ok ut cx exec x e]: on every represented frame exec x answers what the model's execute answers for the
+   expression e — a represented frame and the same result column.  Translated: the Err exit, the context taken from
+   the config, execute, the Copy into dst, the Drop of the result column when it is a temporary (not dst, not a column
+   of the receiver). *)
+Theorem T1_qframe_Eval (E ECF EXPR : Type) (col_nil : coldata) (new_error : bytes -> bytes -> E) (propagate : bytes -> option E -> E)
+  (checkname_error : bytes -> E) (unknownCol : bytes -> bytes) (ord : forall V : Type, gq_map V -> gq_map V)
+  (ut : upper_table) (cx : ctx) (ncf : list ECF -> outcome (gq_EvalConfig ctx))
+  (exec : EXPR -> gq_QFrame nat E coldata -> ctx -> outcome (gq_QFrame nat E coldata * bytes))
+  (q : gq_QFrame nat E coldata) (f : frame) (dst : bytes) (x : EXPR) (e : expr) (ff : list ECF) :
+  perm_order ord -> ncf ff = Ok (gq_mk_EvalConfig cx) -> execute_ok ut cx exec x e -> rep q f ->
+  match eval ut cx f dst e with
+  | Ok f' => exists q', gq_QFrame_Eval col_nil new_error propagate checkname_error unknownCol ord ncf exec q dst x ff = Ok q'
+                        /\ rep q' f'
+  | Fail => gq_QFrame_Eval col_nil new_error propagate checkname_error unknownCol ord ncf exec q dst x ff = Fail
+  | Panic => gq_QFrame_Eval col_nil new_error propagate checkname_error unknownCol ord ncf exec q dst x ff = Panic
+  end.
+Proof.
+  exact (fun Ho => gq_Eval_sim col_nil new_error propagate checkname_error unknownCol ord Ho ut cx ncf exec q f dst x e ff).
+Qed.
+Print Assumptions T1_qframe_Eval.
+
+(* end to end on translated text: the expression is a GENERATED expression tree x (Gen/GenExprTree.v), execute is the
+   GENERATED execute run on the frame the Go frame represents ([exec_translated], tied to Eval.execute by
+   T1_expr_execute), the wrapper is the generated QFrame.Eval: together they are Eval.eval on abs_expr x.
+   Premises: x is well formed (built through Val / Expr) and the fuel covers it *)
+Theorem T1_qframe_Eval_translated (E ECF : Type) (e0 : E) (col_nil : coldata) (new_error : bytes -> bytes -> E)
+  (propagate : bytes -> option E -> E) (checkname_error : bytes -> E) (unknownCol : bytes -> bytes)
+  (ord : forall V : Type, gq_map V -> gq_map V) (ut : upper_table) (cx : ctx) (ncf : list ECF -> outcome (gq_EvalConfig ctx))
+  (fuel : nat) (q : gq_QFrame nat E coldata) (f : frame) (dst : bytes) (x : GenExprTreeProofs.MExpression) (ff : list ECF) :
+  perm_order ord -> ncf ff = Ok (gq_mk_EvalConfig cx) ->
+  GenExprTreeProofs.wf_expr x = true -> (GenExprTreeProofs.fuel_need x <= fuel)%nat -> rep q f ->
+  match eval ut cx f dst (GenExprTreeProofs.abs_expr x) with
+  | Ok f' => exists q', gq_QFrame_Eval col_nil new_error propagate checkname_error unknownCol ord ncf (exec_translated e0 ut fuel) q dst x ff = Ok q'
+                        /\ rep q' f'
+  | Fail => gq_QFrame_Eval col_nil new_error propagate checkname_error unknownCol ord ncf (exec_translated e0 ut fuel) q dst x ff = Fail
+  | Panic => gq_QFrame_Eval col_nil new_error propagate checkname_error unknownCol ord ncf (exec_translated e0 ut fuel) q dst x ff = Panic
+  end.
+Proof.
+  exact (fun Ho Hn Hw Hf => gq_Eval_sim col_nil new_error propagate checkname_error unknownCol ord Ho ut cx ncf (exec_translated e0 ut fuel)
+                              q f dst x (GenExprTreeProofs.abs_expr x) ff Hn (exec_translated_ok e0 ut cx fuel x Hw Hf)).
+Qed.
+Print Assumptions T1_qframe_Eval_translated.
+
+(* ------------------------------------------------------------------ ColumnTypes, ColumnTypeMap *)
+
+(* Column.DataType is the model's col_type (abstraction boundary); ColumnTypes = the ttypes of the logical table *)
+Theorem T1_qframe_ColumnTypes (E : Type) (q : gq_QFrame nat E coldata) (f : frame) :
+  rep q f -> gq_QFrame_ColumnTypes TInt m_col_DataType q = Ok (map (fun nc => col_type (snd nc)) (cols f)).
+Proof. exact (gq_ColumnTypes_eq q f). Qed.
+Print Assumptions T1_qframe_ColumnTypes.
+
+(* ColumnTypeMap: every name resolves to the type of the column the by-name map points to (the LAST of that name) *)
+Theorem T1_qframe_ColumnTypeMap (E : Type) (ord : forall V : Type, gq_map V -> gq_map V) (q : gq_QFrame nat E coldata) (f : frame) :
+  perm_order ord -> rep q f ->
+  exists M, gq_QFrame_ColumnTypeMap m_col_DataType ord q = Ok M /\ forall n, gq_mget M n = option_map col_type (lookup_col f n).
+Proof. exact (gq_ColumnTypeMap_eq ord q f). Qed.
+Print Assumptions T1_qframe_ColumnTypeMap.
+Example T1_qframe_ColumnTypes_example :
+  gq_QFrame_ColumnTypes TInt m_col_DataType ex_q = Ok [TInt; TString; TBool]
+  /\ gq_QFrame_ColumnTypeMap m_col_DataType (fun _ m => rev m) ex_q = Ok [([98], TString); ([97], TBool)].
+Proof. vm_compute. split; reflexivity. Qed.
+
+(* Eval("k", Val(7)) on the example frame, end to end on generated text: a temporary constant column is made (through
+   the generated execute and the model's apply), copied to "k" and dropped *)
+Example T1_qframe_Eval_example :
+  let x := @GenExprTree.ge_mk_constExpr GenExprTreeProofs.err_msg N afn (GenExprTree.ge_dyn_int 7%Z) in
+  GenExprTreeProofs.wf_expr x = true /\ (GenExprTreeProofs.fuel_need x <=? N.to_nat 20000)%nat = true
+  /\ match gq_QFrame_Eval (ICol []) (fun _ _ => tt) (fun _ _ => tt) (fun _ => tt) (fun b => b) (fun _ m => m)
+             (fun _ : list unit => Ok (gq_mk_EvalConfig [])) (exec_translated tt [] (N.to_nat 20000)) ex_q [107] x [] with
+     | Ok q' => Ok (absq q') | Fail => Fail | Panic => Panic end
+     = eval [] [] ex_f [107] (GenExprTreeProofs.abs_expr x)
+  /\ match eval [] [] ex_f [107] (GenExprTreeProofs.abs_expr x) with
+     | Ok f' => col_names f' = [[97]; [98]; [97]; [107]] /\ lookup_col f' [107] = Some (ICol [7; 0; 7]%Z)
+     | _ => False end.
+Proof. vm_compute. repeat split; reflexivity. Qed.
